@@ -383,6 +383,16 @@ func Mul(a, b *Term) *Term {
 		if y&(y-1) == 0 {
 			return Shl(a, Const(w, uint64(bits.TrailingZeros64(y))))
 		}
+		// small constants as shift-and-add (bit-blasted multipliers are slow)
+		if bits.OnesCount64(y) == 2 {
+			hi := uint64(63 - bits.LeadingZeros64(y))
+			lo := uint64(bits.TrailingZeros64(y))
+			return Add(Shl(a, Const(w, hi)), Shl(a, Const(w, lo)))
+		}
+		if (y+1)&y == 0 && y < 1<<20 { // 2^k - 1
+			k := uint64(bits.TrailingZeros64(y + 1))
+			return Sub(Shl(a, Const(w, k)), a)
+		}
 	}
 	return bin(OpMul, a, b)
 }
@@ -428,6 +438,13 @@ func SDiv(a, b *Term) *Term {
 		}
 		if y == 1 {
 			return a
+		}
+		if sy := signExt(y, w); sy > 0 && y&(y-1) == 0 {
+			// x / 2^k (truncating) = (x + (x<0 ? 2^k-1 : 0)) >>a k
+			k := uint64(bits.TrailingZeros64(y))
+			neg := SLt(a, Const(w, 0))
+			adj := Ite(neg, Const(w, y-1), Const(w, 0))
+			return AShr(Add(a, adj), Const(w, k))
 		}
 	}
 	return bin(OpSDiv, a, b)
